@@ -17,7 +17,7 @@ def run(ctx):
     r = ctx.rng
     ctx.rule = ("generated programs (fuzz, operator vectors incl. BLS points, hand-shaped incl. keyword atoms in non-canonical "
                 "form, unknown operators, guards) under random flags and budgets: fresh allocator vs 1-2 random (history seed, "
-                "encoding seed) variants; non-trivial = distinct (program, variant) whose fresh run succeeds")
+                "encoding seed, earlier runs of the same program under the same or other flags) variants; non-trivial = distinct (program, variant) whose fresh run succeeds")
     ctx.explanation = "see MANIFEST level text"
     ctx.proofs()
     if not ctx.build():
@@ -31,11 +31,21 @@ def run(ctx):
         l0 = run_line(p, e, f=f, m=m)
         for _ in range(r.choice([1, 2])):
             kw = {}
-            mode = r.choice(["h", "enc", "both"])
+            mode = r.choice(["h", "enc", "both", "rep", "rep"])
             if mode in ("h", "both"):
                 kw["h"] = r.randrange(1, 10 ** 9)
             if mode in ("enc", "both"):
                 kw["enc"] = r.randrange(1, 10 ** 9)
+            if mode == "rep":
+                # earlier runs of the very same nodes in the same allocator (successful or failed; what
+                # they cached - e.g. BLS points they validated or rejected - must not matter), under the
+                # same flags or under other flags
+                kw["rep"] = r.choice([1, 1, 2])
+                if r.random() < 0.4:
+                    kw["rf"] = r.choice([0, FLAG["RELAXED_BLS"], FLAG["NEW_COST_MODEL"], FLAG["ENABLE_GC"],
+                                         f ^ FLAG["RELAXED_BLS"], f ^ FLAG["ENABLE_GC"]])
+                if r.random() < 0.3:
+                    kw["enc"] = r.randrange(1, 10 ** 9)
             base.append(l0)
             var.append(run_line(p, e, f=f, m=m, **kw))
     a = vlib.run_impl("run", base)
